@@ -138,8 +138,11 @@ class SchedLock(object):
         self.__exit__()
 
 
-def line_tracer(baton, code_objects):
-    """threading.settrace-style function: park at every line of the given code objects."""
+def line_tracer(baton, code_objects, follow=None, files=()):
+    """threading.settrace-style function: park at every line of the given code objects -- and of the functions they call (transitively)
+    for which `follow(code)` holds (helpers a refactoring may move part of the traced function into)."""
+    traced = set(code_objects)
+
     def local_trace(frame, event, arg):
         if event == "line":
             baton.log.append((baton.local.tid, "line", frame.f_lineno, "", ()))
@@ -147,8 +150,13 @@ def line_tracer(baton, code_objects):
         return local_trace
 
     def global_trace(frame, event, arg):
-        if event == "call" and frame.f_code in code_objects:
-            return local_trace
+        if event == "call":
+            code = frame.f_code
+            if code in traced or code.co_filename in files:
+                return local_trace
+            if follow is not None and frame.f_back is not None and frame.f_back.f_code in traced and follow(code):
+                traced.add(code)
+                return local_trace
         return None
     return global_trace
 
